@@ -54,8 +54,6 @@ struct TypeOps {
   // probe rigs: full access to the scripted writer/reader
   std::function<int(const void* obj, ProbeWriter& w)> probe_write;
   std::function<int(void* obj, ProbeReader& r)> probe_read;
-  // bounded-over-probe (tables nest these themselves; this is an explicit outer BoundedReader/Writer)
-  std::function<int(void* obj, ProbeReader& r, size_t limit)> probe_read_bounded;
 };
 
 template <class T>
@@ -187,11 +185,6 @@ TypeOps make_ops() {
   };
   t.probe_read = [](void* p, ProbeReader& r) -> int {
     nop::Deserializer<ProbeReader*> s{&r};
-    return ecode(s.Read(&static_cast<Holder<T>*>(p)->v));
-  };
-  t.probe_read_bounded = [](void* p, ProbeReader& r, size_t limit) -> int {
-    nop::BoundedReader<ProbeReader> br{&r, limit};
-    nop::Deserializer<nop::BoundedReader<ProbeReader>*> s{&br};
     return ecode(s.Read(&static_cast<Holder<T>*>(p)->v));
   };
   return t;
